@@ -5,6 +5,7 @@ CHK = {"profile": "chk", "prefetch": True}
 FAST = {"profile": "fast", "prefetch": True}
 CHK_NOPF = {"profile": "chk", "prefetch": False}
 FAST_NOPF = {"profile": "fast", "prefetch": False}
+ASAN = {"profile": "fast", "prefetch": True, "asan": True}
 
 
 def step(bin_, cfg, **kw):
@@ -81,7 +82,7 @@ def mc_evidence(rule, assumptions, bounds):
     return f
 
 
-def need(counter_names, min_cases=1):
+def need(counter_names, min_cases=1, answers=True):
     def f(results):
         c, _ = _merge_counters(results)
         for n in counter_names:
@@ -90,7 +91,7 @@ def need(counter_names, min_cases=1):
         for r in results:
             if r.get("evals", 0) < 1000:
                 return f"only {r.get('evals')} observations in {r.get('profile')}"
-            if r.get("distinct_answers_sum", 0) < 3:
+            if answers and r.get("distinct_answers_sum", 0) < 3:
                 return "fewer than 3 distinct answers observed"
         return None
     return f
@@ -346,4 +347,61 @@ PROPS["C19"] = {
         TRUST,
         "TINY(3,4..5), boundary lengths <= 4097, 121^2 pairs x 10 aliases x 3 element types, width comparison over TINY(3,5) + 3 long inputs."),
     "vacuity": need(["pairs_compared", "empty_cases"]),
+}
+
+
+def c04_post(pid, tier, results):
+    """API coverage guard: every safe `pub fn` of the structure modules (and every safe method of the
+    public traits) must be named in mc_safety's method list, so new API cannot be skipped silently."""
+    import os, re, subprocess
+    notes = []
+    repo = os.environ.get("QWT_REPO", "/repo")
+    names = set()
+    for root in ("bitvector", "qvector", "quadwt", "binwt", "darray"):
+        for dp, _, files in os.walk(os.path.join(repo, "src", root)):
+            if "rs_qvector/rs_qvector" in dp:
+                continue  # stale duplicate, not compiled
+            for fn in files:
+                if fn.endswith(".rs") and fn != "tests.rs":
+                    text = open(os.path.join(dp, fn)).read().split("#[cfg(test)]")[0]
+                    names |= set(re.findall(r"^\s*pub fn (\w+)", text, re.M))
+    lib = open(os.path.join(repo, "src", "lib.rs")).read()
+    names |= set(re.findall(r"^\s+fn (\w+)", lib, re.M))
+    names -= {"block_predecessor"}  # method of a private type
+    step0 = results[0]["_step"]
+    import sys
+    sys.path.insert(0, os.path.dirname(os.path.dirname(os.path.abspath(__file__))))
+    exe = results[0].get("_exe")
+    try:
+        listed = set(subprocess.run([exe, "--list-methods"], stdout=subprocess.PIPE, text=True, timeout=60).stdout.split())
+    except Exception as e:  # noqa
+        return [], [f"C04: cannot list the methods of the sweep: {e}"]
+    missing = sorted(n for n in names if n not in listed)
+    if missing:
+        notes.append("C04: safe public functions of /repo/src that the sweep does not call: " + ", ".join(missing))
+    results[0].setdefault("counters", {})["public_functions_cross_checked"] = len(names)
+    return [], notes
+
+
+PROPS["C04"] = {
+    "bin": "mc_safety",
+    "quick": [step("mc_safety", CHK), step("mc_safety", FAST)],
+    "thorough": [step("mc_safety", CHK), step("mc_safety", FAST), step("mc_safety", ASAN)],
+    "post": c04_post,
+    "evidence": exploration_evidence(
+        "bounded-exhaustive cross product: state zoo (Default::default(), every constructor on the empty input, 1 element, "
+        "22 sizes straddling 64/128/256/512/2048/4096/8192, all-0 / all-1 / alternating / irregular contents, clones, "
+        "BitVector<->BitVectorMut conversions, bincode round trips) x every safe public method of the 9 vector types and of "
+        "the 10 tree aliases over 6 element types (60 tree instantiations) x argument alphabet (0,1,2, n-1,n,n+1, 63..65, "
+        "255..257, 511..513, 2047..2049, 4095..4097, 2^32, usize::MAX/2, usize::MAX-1, usize::MAX; quad symbols 0..7 and 255; "
+        "tree symbols 0,1,m-1..m+2, 2^32, 2^64+k, T::MAX; get_bits lengths 0,1,2,63,64,65,usize::MAX; mutator arguments on "
+        "both sides of every documented panic condition). Every call runs under a panic trap inside a journalled child process: "
+        "a panic whose documented condition does not hold, SIGSEGV/SIGILL/SIGBUS/SIGABRT (incl. std's unsafe-precondition "
+        "checks in the chk build), a watchdog timeout, or Some(..) for arguments that denote nothing is a violation; calls that "
+        "may exhaust memory run in a forked grandchild (allocation-failure panic / abort is the permitted outcome). A case is "
+        "one (type, state); all are non-trivial.",
+        TRUST + ["the allow-list of documented panics is matched on (method, documented condition true for the arguments)"],
+        "both build profiles in both tiers (fast = optimized, chk = debug assertions + overflow checks); thorough adds an "
+        "AddressSanitizer build of the same sweep. Lengths >= 2^43 and real memory exhaustion are not provoked."),
+    "vacuity": need(["documented_panics_observed", "hostile_calls_allocation_failure_abort", "public_functions_cross_checked"], answers=False),
 }
